@@ -19,6 +19,7 @@ let parse_up (s : string) : int list * int list * string list =
 
 let run () =
   let w = ref [] and source = ref false in
+  let tw = ref tw_empty and tracked = ref false and tsteps = ref 0 in   (* deeply tracked types: DeepTracker.tstep in parallel *)
   let ops = ref 0 and bad = ref 0 and moves = ref 0 and assigns = ref 0 and swaps = ref 0 and dels = ref 0 and lineno = ref 0 in
   let diverge msg line = incr bad; if !bad <= 12 then Printf.printf "DIVERGE line %d: %s :: %s\n" !lineno msg line in
   let nat k = nat_of_int (int_of_string k) in
@@ -43,8 +44,16 @@ let run () =
                 diverge (Printf.sprintf "%s: the model returns %d block(s) upstream [%s], the implementation returned [%s]" what (List.length r)
                            (String.concat "," (List.map (fun x -> string_of_int (iz x)) r)) (String.concat "," (List.map string_of_int downs))) line
             | None -> diverge ("model: operation not enabled (" ^ what ^ ")") line) in
+         let tstep_ o what = if !tracked then (incr tsteps; match dt_step true !tw o with Some w' -> tw := w' | None -> diverge ("deep-tracker model: operation not enabled (" ^ what ^ ")") line) in
          (match lhs, rhs with
-          | "move" :: ty :: _, _ -> source := (String.length ty >= 4 && String.sub ty 0 4 = "src_") || (String.length ty >= 5 && String.sub ty 0 5 = "list_")
+          | "new" :: k :: _, "made" :: _ -> tstep_ (TNew (nat k)) "construction"
+          | "mc" :: i :: j :: _, "moved" :: _ -> tstep_ (TMoveCons (nat i, nat j)) "move construction"
+          | "ma" :: i :: j :: _, "assigned" :: _ -> tstep_ (TMoveAssign (nat i, nat j)) "move assignment"
+          | "sw" :: i :: j :: _, "swapped" :: _ -> tstep_ (TSwap (nat i, nat j, nat_of_int 4)) "swap"
+          | "del" :: k :: _, "destroyed" :: _ -> tstep_ (TDel (nat k)) "destruction"
+          | _ -> ());
+         (match lhs, rhs with
+          | "move" :: ty :: _, _ -> tracked := (ty = "stack_tracked"); source := (String.length ty >= 4 && String.sub ty 0 4 = "src_") || (String.length ty >= 5 && String.sub ty 0 5 = "list_")
           | "new" :: k :: _, "made" :: _ -> step (MNew (nat k, if !source then [] else List.rev_map zi ups)) "construction"
           | ("use" | "fill") :: k :: _, "took" :: _ ->
             if not !source then begin
@@ -69,8 +78,14 @@ let run () =
                let m = (match get !w (nat k) with SEmpty -> "E" | SObj (true, _) -> "M" | SObj (false, _) -> "L") in
                (* an object that received a moved-from object's state is moved-from itself *)
                if s <> m then diverge (Printf.sprintf "slot %s is %s in the model" k m) line
+             | [k; s; _; tp] ->
+               let m = (match get !w (nat k) with SEmpty -> "E" | SObj (true, _) -> "M" | SObj (false, _) -> "L") in
+               if s <> m then diverge (Printf.sprintf "slot %s is %s in the model" k m) line;
+               (* the tracker the deep pointer refers to, against DeepTracker *)
+               let mt = (match t_view !tw (nat k) with None -> "E" | Some None -> "n" | Some (Some j) -> string_of_int (int_of_nat j)) in
+               if tp <> mt then diverge (Printf.sprintf "the deep tracker pointer of slot %s refers to %s, in the model to %s" k tp mt) line
              | _ -> ()) (if (match lhs with "end" :: _ -> true | _ -> false) then [] else split_ws st)
        | _ -> ()
      done
    with End_of_file -> ());
-  Printf.printf "SUMMARY ops=%d diverged=%d moves=%d assigns=%d swaps=%d dels=%d\n" !ops !bad !moves !assigns !swaps !dels
+  Printf.printf "SUMMARY ops=%d diverged=%d moves=%d assigns=%d swaps=%d dels=%d tracker_steps=%d\n" !ops !bad !moves !assigns !swaps !dels !tsteps
